@@ -38,6 +38,8 @@ func main() {
 			checkC05(tier)
 		case "C07":
 			checkC07(tier)
+		case "C12", "C14":
+			checkLib(os.Args[2], tier)
 		case "C16":
 			checkC16(tier)
 		case "C18":
@@ -155,6 +157,9 @@ func replay(path string) {
 	if err != nil {
 		harnessFail("replay: %v", err)
 	}
+	if sc.Property == "C12" || sc.Property == "C14" {
+		replayLib(sc.Property, path)
+	}
 	var judge Judge
 	want := []string{"fc"}
 	switch sc.Property {
@@ -203,4 +208,18 @@ func replay(path string) {
 	}
 	fmt.Printf("VIOLATION property=%s replay=%s\n", sc.Property, path)
 	os.Exit(1)
+}
+
+func replayLib(prop, path string) {
+	c := newCtx(prop, "replay")
+	c.B = NewBuild()
+	off, ver := buildLibeng(c.B, prop == "C14")
+	abs, _ := filepath.Abs(path)
+	rc := runLib(off, prop, "replay", fmt.Sprint(int64(c.Seed)), verifDir, abs)
+	if rc == 3 && ver != "" {
+		rc = runLib(ver, prop, "replay", fmt.Sprint(int64(c.Seed)), verifDir, abs)
+	}
+	c.Close()
+	cleanupAll()
+	os.Exit(rc)
 }
